@@ -223,6 +223,13 @@ class ScriptedPeer(PeerBase):
             if self.framing != "tcp":
                 e = e[:-1] + bytes([e[-1] ^ 0x55])
             return self.send(s, e, 0, n)
+        if name == "excmbap":           # Modbus/TCP exception frame whose MBAP length field is wrong (GoodWe firmware quirk: the
+            e = self.exception(req, args[0])        # request's own length copied into the answer); intact frame on RTU
+            if e is None:
+                return
+            if self.framing == "tcp":
+                e = e[:4] + int(args[1]).to_bytes(2, "big") + e[6:]
+            return self.send(s, e, 0, n)
         if name == "exc":
             code = args[0] if args else 2
             e = self.exception(req, code)
